@@ -440,6 +440,10 @@ func (f *Func) reachTarget(
 				}
 
 				unsatisfied = append(unsatisfied, valueable.value())
+
+				// Report the argument once, even if the path crosses several
+				// functions that are being resolved.
+				break
 			}
 		}
 
